@@ -204,6 +204,109 @@ func c16(c *an.Ctx) {
 		}
 	})
 
+	c.Check("R-SHAPE", "ErrorCause removes only the executor's own path wrapper: an error is treated as a cancellation (and withheld from the client) only when the resolver's error itself is context.Canceled", 2, func(o *an.O) {
+		fn := c.NeedFunc(gq, "ErrorCause")
+		param := ssa.Value(fn.Params[0])
+		var allowed func(v ssa.Value, seen map[ssa.Value]bool) bool
+		allowed = func(v ssa.Value, seen map[ssa.Value]bool) bool {
+			v = an.StripConv(v)
+			if v == param {
+				return true
+			}
+			if seen[v] {
+				return true
+			}
+			seen[v] = true
+			switch x := v.(type) {
+			case *ssa.Phi:
+				for _, e := range x.Edges {
+					if !allowed(e, seen) {
+						return false
+					}
+				}
+				return true
+			case *ssa.UnOp:
+				fa, ok := x.X.(*ssa.FieldAddr)
+				if !ok || an.FieldName(fa.X.Type(), fa.Field) != "inner" {
+					return false
+				}
+				nn := an.NamedOf(fa.X.Type())
+				if nn == nil || nn.Obj().Name() != "pathError" {
+					return false
+				}
+				var src ssa.Value
+				switch y := fa.X.(type) {
+				case *ssa.Extract:
+					if ta, ok := y.Tuple.(*ssa.TypeAssert); ok {
+						src = ta.X
+					}
+				case *ssa.TypeAssert:
+					src = y.X
+				}
+				return src != nil && allowed(src, seen)
+			}
+			return false
+		}
+		for _, e := range an.Exits(fn, false) {
+			ret, ok := e.(*ssa.Return)
+			if !ok {
+				continue
+			}
+			o.Site(e)
+			if !allowed(ret.Results[0], map[ssa.Value]bool{}) {
+				o.FailAt(e, "ErrorCause returns %s: it unwraps more than the executor's own *pathError, so a resolver error that merely wraps context.Canceled (or any error when unwrapped to its root) is taken for a cancelled request by handleSubscribe / handleMutate / the HTTP handler and never reported to the client", an.Short(an.Expr(ret.Results[0]), 60))
+			}
+		}
+		an.Instrs(fn, func(i ssa.Instruction) {
+			cc := an.CallOf(i)
+			if cc == nil {
+				return
+			}
+			name := ""
+			if cc.IsInvoke() {
+				name = cc.Method.Name()
+			} else if f := an.CalleeFunc(cc); f != nil {
+				name = f.Name()
+			}
+			switch name {
+			case "Unwrap", "Is", "As", "Cause":
+				o.FailAt(i, "ErrorCause follows the generic error chain (%s): errors that only wrap context.Canceled would be withheld from the client", name)
+			}
+		})
+		// the callers withhold an error only on equality with context.Canceled
+		n := 0
+		for _, nm := range []string{"(*conn).handleSubscribe", "(*conn).handleMutate", "HTTPHandler"} {
+			f := p.Func(gq, nm)
+			if f == nil {
+				continue
+			}
+			for _, g := range an.WithAnons(f) {
+				for _, call := range an.CallsToFunc(g, fn) {
+					n++
+					o.Site(call)
+					okCmp := false
+					for _, r := range *call.(ssa.Value).Referrers() {
+						if bo, ok := r.(*ssa.BinOp); ok && (bo.Op == token.EQL || bo.Op == token.NEQ) {
+							other := bo.Y
+							if other == call.(ssa.Value) {
+								other = bo.X
+							}
+							if strings.HasSuffix(an.Expr(other), "context.Canceled") || strings.HasSuffix(an.Expr(other), "Canceled") {
+								okCmp = true
+							}
+						}
+					}
+					if !okCmp {
+						o.FailAt(call, "the cause of a failed execution is not compared with context.Canceled")
+					}
+				}
+			}
+		}
+		if n < 2 {
+			o.Fail(p.Pos(fn.Pos()), "expected the subscription, mutation and HTTP paths to classify cancellations with ErrorCause (found %d call sites)", n)
+		}
+	})
+
 	c.Check("R-ERR", "errors produced while executing work units are never dropped (each reaches outputNode.Fail, a return, or a wrapper whose result does)", 12, func(o *an.O) {
 		files := map[string]bool{"batch_executor.go": true}
 		for _, fn := range p.ModuleFuncs(func(rel string) bool { return rel == gq }) {
